@@ -24,6 +24,7 @@ def load_event(s):
     e.failure = bool(data['failure'])
     e.notify = bool(data['notify'])
     e.channels = tuple(data['channels'])
+    hash(e.channels)  # TypeError here rather than in the dispatcher, which uses them as a dict key
 
     for k, v in dict(data['meta']).items():
         if k.startswith('__') or k in META_EXCLUDE:
